@@ -257,7 +257,9 @@ func factsAt(b *ssa.BasicBlock) []Fact {
 	return out
 }
 
-// expandFact strips negations.
+// expandFact strips negations, and opens a short-circuit condition that was materialised as a φ of booleans
+// (`case a || b:` in a tagless switch, `x := a && b`): when a || b is false both are false, when a && b is true both
+// are true.  The first fact returned is always the condition itself.
 func expandFact(f Fact) []Fact {
 	for {
 		u, ok := f.Cond.(*ssa.UnOp)
@@ -266,7 +268,45 @@ func expandFact(f Fact) []Fact {
 		}
 		f = Fact{u.X, !f.Truth}
 	}
-	return []Fact{f}
+	out := []Fact{f}
+	ph, ok := f.Cond.(*ssa.Phi)
+	if !ok || len(ph.Edges) < 2 {
+		return out
+	}
+	isConst := func(v ssa.Value, want bool) bool {
+		k, ok := v.(*ssa.Const)
+		return ok && k.Value != nil && k.Value.String() == map[bool]string{true: "true", false: "false"}[want]
+	}
+	// a || b || …: edges are `true` (short-circuited) or the last operand; known false ⇒ no edge was `true`
+	// a && b && …: edges are `false` or the last operand; known true ⇒ no edge was `false`
+	short := !f.Truth // the constant that short-circuits: true for ||, false for &&
+	var rest []ssa.Value
+	shape := true
+	for i, e := range ph.Edges {
+		if isConst(e, short) {
+			// the predecessor's own branch towards the φ was taken on its short-circuit edge: its condition had the
+			// short-circuit value; since the φ does not have that value, that edge was not taken
+			pred := ph.Block().Preds[i]
+			if iff, ok := pred.Instrs[len(pred.Instrs)-1].(*ssa.If); ok {
+				// which truth of pred's condition leads to the φ block?
+				toPhi := pred.Succs[0] == ph.Block()
+				// not taken ⇒ the condition had the other value
+				out = append(out, expandFact(Fact{iff.Cond, !toPhi})...)
+			}
+			continue
+		}
+		if _, isK := e.(*ssa.Const); isK {
+			shape = false
+			break
+		}
+		rest = append(rest, e)
+	}
+	if shape && len(rest) == 1 {
+		out = append(out, expandFact(Fact{rest[0], f.Truth})...)
+	} else if !shape {
+		return []Fact{f}
+	}
+	return out
 }
 
 // cmpFact normalises a comparison fact into (x op y) that HOLDS.
